@@ -166,19 +166,31 @@ fn main() {
                         ev.fetch_add(1, Ordering::SeqCst);
                     });
                 }
-                let layer = b.build();
-                let mut svc = if predicate_first { layer.clone().layer(GatedInner::new(w.inner.clone())) } else { layer.layer(GatedInner::new(w.inner.clone())) };
-                let mut clone = svc.clone();
+                let mut layer = Some(b.build());
+                let mut svc = Some(if predicate_first { layer.as_ref().unwrap().clone().layer(GatedInner::new(w.inner.clone())) } else { layer.as_ref().unwrap().layer(GatedInner::new(w.inner.clone())) });
+                let mut clone = Some(svc.as_ref().unwrap().clone());
                 let mut vf_expected = 0u32;
                 let mut backup_expected: Vec<Req> = vec![];
                 for (i, _o) in script.iter().enumerate() {
                     let req = Req::new(100 + i as u32, (i % 2) as u8 + 3);
-                    let h = if i % 2 == 1 { &mut clone } else { &mut svc };
                     let before = w.inner.lock().unwrap().calls.len();
-                    let got = w.block_on(async {
-                        let _ = futures::future::poll_fn(|cx| Service::<Req>::poll_ready(h, cx)).await;
-                        h.call(req.clone()).await
-                    });
+                    // the last request of every second grid point is still in flight when the
+                    // layer and every service handle are dropped (oneshot on a clone, a
+                    // per-connection service that goes away)
+                    let orphaned = i + 1 == script.len() && predicate_first;
+                    let got = {
+                        let h = if i % 2 == 1 { clone.as_mut().unwrap() } else { svc.as_mut().unwrap() };
+                        w.block_on(async {
+                            let _ = futures::future::poll_fn(|cx| Service::<Req>::poll_ready(h, cx)).await;
+                        });
+                        let fut = h.call(req.clone());
+                        if orphaned {
+                            svc = None;
+                            clone = None;
+                            drop(layer.take());
+                        }
+                        w.block_on(fut)
+                    };
                     rep.evaluations += 1;
                     let g = w.inner.lock().unwrap();
                     let after = g.calls.len();
